@@ -526,6 +526,9 @@ func c01Oracle(w *simWorld, faultEvs []int) (out []Violation, trigger bool) {
 	if len(faultEvs) == 0 {
 		sn := w.snapshot()
 		for _, tname := range topics {
+			if strings.Contains(tname, "#") {
+				continue
+			}
 			list := byTopic[tname]
 			if list[0].Seq > 1+len(unans[tname]) && w.Crashes == 0 {
 				out = append(out, vio("C01", "first-number", "topic %s: first accepted number is %d", tname, list[0].Seq))
